@@ -553,6 +553,21 @@ func tthEncCases(c *Ctx) []json.RawMessage {
 		}
 		add(TTHCase{Mode: "enc", Str: sk, Seq: k})
 	}
+	// many entries per section (tables, inline arrays and batch paths of a decoder have sizes: walk across them)
+	for _, n := range []int{17, 65, 129, 130} {
+		var sk []StrKV
+		var ik []IntKV
+		for i := 0; i < n; i++ {
+			sk = append(sk, StrKV{K: StrSpec{Lit: []int{'k', 'a' + i%26, 'a' + (i/26)%26, 'a' + i/676}}, V: StrSpec{Lit: []int{'v', 48 + i%10}}})
+			ik = append(ik, IntKV{K: 300 + i, V: StrSpec{Lit: []int{'w', 48 + i%10}}})
+		}
+		add(TTHCase{Mode: "enc", Seq: n, Str: sk})
+		add(TTHCase{Mode: "enc", Seq: n, Int: ik})
+		if n <= 130 {
+			tok := litS("tk")
+			add(TTHCase{Mode: "enc", Seq: n, Str: sk, Int: ik, ACL: &tok})
+		}
+	}
 	for _, p := range []int{0, 2, 3, 4, 16, 17, 1, 5, 255} { // unsupported protocol ids: encoder accepts, decoder must reject
 		add(TTHCase{Mode: "enc", Proto: p, Seq: 77})
 	}
@@ -627,6 +642,24 @@ func tthHostileCases(c *Ctx) []json.RawMessage {
 		add(TTHCase{F: (bl + pad) / 4, BLen: bl + pad, Body: body, Total: 50})
 		if rng.Intn(3) == 0 { // the same sections but the size field cuts into them
 			add(TTHCase{F: (bl+pad)/4 - 1, BLen: bl + pad, Body: body, Total: 50})
+		}
+	}
+	// sections with many well-formed entries (honest count, count one too many, count one too few), str and int
+	for _, n := range c.PickInts([]int{17, 33, 64, 65, 100, 128, 129, 130}, []int{16, 17, 32, 33, 64, 65, 66, 100, 127, 128, 129, 130, 256, 257, 300}) {
+		for _, kind := range []string{"01", "10"} {
+			for _, dc := range []int{0, 1, -1} {
+				body := "0000" + kind + fmt.Sprintf("%04x", n+dc)
+				for i := 0; i < n; i++ {
+					if kind == "01" {
+						body += "0003" + fmt.Sprintf("%02x%02x%02x", 'a'+i%26, 'a'+(i/26)%26, 'a'+i/676) + "0001" + fmt.Sprintf("%02x", 48+i%10)
+					} else {
+						body += fmt.Sprintf("%04x", 100+i) + "0001" + fmt.Sprintf("%02x", 48+i%10)
+					}
+				}
+				bl := len(body) / 2
+				pad := (4 - bl%4) % 4
+				add(TTHCase{F: (bl + pad) / 4, BLen: bl + pad, Body: body, Total: bl + pad + 20})
+			}
 		}
 	}
 	for _, x := range []string{"a1", "a0", "sg", "sG", "s1"} {
